@@ -74,7 +74,8 @@ Norm(r) ==
            ELSE [r1 EXCEPT !.lastRef = 0, !.monRef = 0, !.nextRef = 0]
 
 \* schedule generation (simulation mode): environment actions are taken less often than protocol steps
-Rare(n) == ~Emit \/ RandomElement(1..n) = 1
+Sim == Emit /\ TLCGet("config").mode # "bfs"
+Rare(n) == ~Sim \/ RandomElement(1..n) = 1
 
 H(op, p, x, k) == [op |-> op, p |-> p, x |-> x, k |-> k]
 Rec(h) == hist' = IF Emit THEN Append(hist, h) ELSE hist
@@ -139,6 +140,8 @@ Create(p) ==
   LET r == pr[p] IN
   /\ r.pc = "create"
   /\ IF "Save" \in r.down THEN Move(p, [r EXCEPT !.pc = "failed"], StepH(p)) /\ UNCHANGED files
+     ELSE IF "SaveAfter" \in r.down      \* the file is stored, but the operation reports an error: an orphan is left behind
+          THEN files' = files \cup {NewFile(p)} /\ Move(p, [r EXCEPT !.pc = "failed"], StepH(p))
      ELSE LET f == NewFile(p) IN
           /\ files' = files \cup {f}
           /\ Move(p, [r EXCEPT !.pc = "sleep", !.mine = f, !.newest = r.ts, !.gen = @ + 1], StepH(p))
@@ -175,6 +178,8 @@ RSave(p) ==
           ELSE /\ files' = files \cup {NewFile(p)}
                /\ Move(p, [r EXCEPT !.mine = NewFile(p), !.gen = @ + 1, !.newest = r.ts, !.lastRef = r.ts, !.monRef = Local(p), !.pc = Ret(r)], StepH(p))
      ELSE IF "Save" \in r.down THEN Move(p, [r EXCEPT !.pc = Ret(r)], StepH(p)) /\ UNCHANGED files
+          ELSE IF "SaveAfter" \in r.down
+               THEN files' = files \cup {NewFile(p)} /\ Move(p, [r EXCEPT !.gen = @ + 1, !.newest = r.ts, !.pc = Ret(r)], StepH(p))
           ELSE /\ files' = files \cup {NewFile(p)}
                /\ Move(p, [r EXCEPT !.repl = NewFile(p), !.gen = @ + 1, !.newest = r.ts, !.pc = "rrm"], StepH(p))
 
@@ -210,6 +215,8 @@ FSave(p) ==
   LET r == pr[p] IN
   /\ r.pc = "fsave"
   /\ IF ~r.ctx \/ "Save" \in r.down THEN Move(p, FFail(r), StepH(p)) /\ UNCHANGED files
+     ELSE IF "SaveAfter" \in r.down
+          THEN files' = files \cup {NewFile(p)} /\ Move(p, FFail([r EXCEPT !.gen = @ + 1, !.newest = r.ts]), StepH(p))
      ELSE /\ files' = files \cup {NewFile(p)}
           /\ Move(p, [r EXCEPT !.repl = NewFile(p), !.gen = @ + 1, !.newest = r.ts, !.pc = "fsleep"], StepH(p))
 
@@ -274,7 +281,7 @@ Heal(p) ==
 \* `restic unlock` by a third party: removes the lock files that are stale by ITS clock
 StaleByU(f) == (now + skewU) - f.t > STALE
 StaleRm ==
-  /\ \E f \in files : StaleByU(f)
+  /\ (\E f \in files : StaleByU(f)) \/ (Sim /\ files # {} /\ RandomElement(1..6) = 1)   \* `unlock` may run at any time
   /\ files' = {f \in files : ~StaleByU(f)}
   /\ pr' = [p \in Procs |-> IF \E f \in files : f.o = p /\ StaleByU(f) THEN [pr[p] EXCEPT !.robbed = TRUE] ELSE pr[p]]
   /\ Rec(H("stale", 0, FALSE, ""))
@@ -335,7 +342,7 @@ ProcStep(p) ==
   \/ Unl(p) \/ Unlock(p) \/ Crash(p)
   \/ (\E k \in Faults : Fail(p, k)) \/ Heal(p) \/ Del(p)
 
-Busy == (~Emit \/ Len(hist) < HistMax) /\ ~emitted
+Busy == (~Sim \/ Len(hist) < HistMax) /\ ~emitted
 
 \* schedule generation: print the schedule when it is long enough or nothing else can happen
 Done ==
@@ -347,7 +354,7 @@ Done ==
 Act == (\E p \in Procs : ProcStep(p)) \/ StaleRm \/ Wait \/ Tick
 Next ==
   \/ Busy /\ Act
-  \/ Emit /\ (Len(hist) >= HistMax \/ now >= MaxTime \/ \A p \in Procs : pr[p].pc \in Terminal) /\ Done
+  \/ Sim /\ (Len(hist) >= HistMax \/ now >= MaxTime \/ \A p \in Procs : pr[p].pc \in Terminal) /\ Done
 
 Spec == Init /\ [][Next]_vars
 
@@ -375,6 +382,9 @@ InvFresh         == FreshWithin(ObsOf, UnitMs)     \* one unit: times are rounde
 InvNotStale ==
   \A p \in Procs : (Believes(p) /\ pr[p].ctx /\ ~pr[p].robbed) =>
       \E f \in files : f.o = p /\ \A s \in (0 - MaxSkew)..MaxSkew : (now + s) - f.t <= STALE
+
+\* for the "code" variant: TLC's counterexample is printed as a schedule, which the harness replays into the real code
+InvNotStaleEmit == InvNotStale \/ ~PrintT(<<"SCHED", ToJson(hist)>>)
 
 TypeOK == now \in 0..MaxTime /\ \A p \in Procs : pr[p].used <= Budget
 =============================================================================
